@@ -15,7 +15,8 @@ theorem shapes :
     Sticky.canonicalCheck = true ∧ checkServerId = true ∧ checkPrincipal = true ∧ Sticky.openFailuresAreLost = true ∧
     Sticky.openSteps = ["b64decode", "canonical", "open_bytes", "min_len", "unpack_prefix", "exact_len",
       "server_id_ascii_replace", "session_id", "unpack_suffix", "return"] ∧
-    Sticky.validateSteps = ["open_token", "server_id", "registry_get", "entry_none"] ∧
+    Sticky.validateSteps = ["open_token", "server_id", "registry_get", "entry_none", "lock_acquire", "revalidate"] ∧
+    Sticky.isLiveOk = true ∧ Sticky.closeEntryOnce = true ∧ Sticky.endingPathsClose = true ∧
     Sticky.getSteps = ["missing", "expired", "principal"] ∧ Sticky.expiryStrict = true ∧
     Sticky.sealCallOk = true ∧ Sticky.sealChecksSidLen = true ∧ Sticky.maxServerIdLen = 255 ∧
     Sticky.tokenHeaderHandlingOk = true ∧ Sticky.lostSkipsDispatch = true ∧ Sticky.openBodyOk = true ∧
@@ -503,7 +504,7 @@ theorem sess_frame_rt (created expires : Nat) (serverId sid : Bytes) (hc : creat
     (hl : serverId.length ≤ Sticky.maxServerIdLen) (hs : sid.length = Sticky.sessionIdLen) (he : expires < 2 ^ 64) :
     parseFrame (packFrame created serverId sid expires) = .ok (serverId, sid, expires) := by
   have hl' : serverId.length < 256 ^ 1 := by
-    have : Sticky.maxServerIdLen = 255 := shapes.2.2.2.2.2.2.2.2.2.2.1
+    have : Sticky.maxServerIdLen = 255 := by decide
     omega
   exact parseFrame_packFrame created expires serverId sid (by omega) hl' hs (by omega)
 
